@@ -77,6 +77,8 @@ Proof.
   destruct (EV.lookup slot (EV.evs (base s))); simpl; auto.
 Qed.
 
+Local Arguments EV.step : simpl never.
+
 (* every machine step (both variants) keeps the abstraction inside the invariant of the sequential model *)
 Lemma step_J : forall ul s i rest s' stk', step ul s i rest = Some (s', stk') -> J s (i :: rest) -> J s' stk'.
 Proof.
@@ -101,7 +103,7 @@ Proof.
       destruct (EV.after_last (EV.last (base s)) slot) eqn:Ea; [|inversion E; subst; exact HJ].
       set (start := match EV.last (base s) with None => 0 | Some x => x + 1 end) in *.
       pose proof (ProofsEV.step_inv _ (EV.OEvict slot) HJ) as HS.
-      unfold abs in HS at 1. simpl in HS. rewrite Ea in HS. fold start in HS.
+      unfold abs in HS at 1. unfold EV.step in HS. simpl in HS. rewrite Ea in HS. fold start in HS.
       assert (M : forall x, In x (map snd (sort_by_key (filter (EV.in_range start slot) (EV.evs (base s))))) <->
                             In x (map snd (filter (EV.in_range start slot) (EV.evs (base s))))).
       { intros x. rewrite !in_map_iff. split; intros (y & A & B); exists y; split; auto; apply in_sort_by_key; auto. }
@@ -148,7 +150,7 @@ Lemma length_partition : forall {A} (p : A -> bool) l,
 Proof. induction l; simpl; auto. destruct (p a); simpl; lia. Qed.
 Lemma evs_len_event : forall b slot, (length (EV.evs (EV.step b (EV.OEvent slot))) <= S (length (EV.evs b)))%nat.
 Proof.
-  intros. simpl. destruct (EV.after_last (EV.last b) slot); simpl; auto.
+  intros. unfold EV.step. destruct (EV.after_last (EV.last b) slot); simpl; auto.
   destruct (EV.lookup slot (EV.evs b)); simpl; auto. rewrite app_length. simpl. lia.
 Qed.
 Lemma asize_pos : forall a, (1 <= asize a)%nat.
